@@ -406,8 +406,24 @@ NestedCase(order, w, pos) ==
 NestedCases == { NestedCase(o, w, pos) : o \in {1, 2}, w \in Widths,
                    pos \in {-1, 0, 8, 9, 12, 15, 16, 17, 20, 23, 24, 25, 32, 56, 57, 60, 63, 64} }
 
+\* stack accesses addressed directly through r10 with a constant offset (what compilers emit, and
+\* what an engine may be tempted to check at compile time), at both ends of the stack
+DirectInsn(kind, w, off, imm) ==
+  CASE kind = 1 -> LdxI(w, 0, 10, off)
+    [] kind = 2 -> StI(w, 10, off, imm)
+    [] kind = 3 -> StxI(w, 10, 4, off)
+    [] kind = 4 -> XaddI(w, 10, 4, off)
+DirectCaseOf(li, kind, w, pos) ==
+  LET c == LayoutCase(li) IN
+  [c EXCEPT !.id = <<"dir", li, kind, w, pos, 0, 0>>, !.fam = "bounds",
+            !.prog = Flat(LddwSlots(4, V64[16]) \o << Mov64I(0, 0), DirectInsn(kind, w, pos - StackSize, 305419896), ExitI >>)]
+DirectIdx(u) == { <<li, kind, w, pos>> \in ({4, 1} \X (1..4) \X Widths \X PosSet(StackSize)) :
+                    /\ (kind = 4 => w \in {4, 8})
+                    /\ Keep(li + 3 * kind + 5 * w + 7 * (pos + 20)) }
+
 BoundsCases(u) ==
   NestedCases \cup
+  { DirectCaseOf(t[1], t[2], t[3], t[4]) : t \in DirectIdx(u) } \cup
   { BoundsCaseOf(t) : t \in {x \in BoundsIdx(u) : BoundsOK(x) /\ Keep(HashB(x))} } \cup
   { AbsCaseOf(t[1], t[2], t[3], t[4]) :
       t \in { <<li, kind, w, ai>> \in ({1, 3, 4} \X (1..4) \X Widths \X (1..Len(AbsAddrs))) :
@@ -643,6 +659,6 @@ CtxOK(t) == /\ (t[2] \in {2, 3, 4} => VmKinds[t[1]] = "fixed")            \* poi
             /\ (CtxPktLens[t[3]] = 0 => t[2] \notin {2, 3})
 CtxCases(u) ==
   { CtxCase(t[1], t[2], t[3], t[4], t[5]) :
-      t \in { x \in (1..4) \X (1..12) \X (1..Len(CtxPktLens)) \X (1..Len(OffPairs)) \X {0, 1} :
+      t \in { x \in (1..4) \X (1..12) \X (1..Len(CtxPktLens)) \X (1..Len(OffPairs)) \X {0, 1, 2} :
                 CtxOK(x) /\ Keep(x[1] + 3*x[2] + 5*x[3] + 7*x[4] + x[5]) } }
 =============================================================================
